@@ -172,6 +172,8 @@ class Evidence:
         self.excluded += st.get("excluded", 0)
         self.sub_evals += st.get("sub_evaluations", 0)
         self.sub_nontrivial += st.get("sub_nontrivial", 0)
+        if st.get("wall_timeouts"):
+            self.extra["inconclusive_wall_clock_timeouts"] = self.extra.get("inconclusive_wall_clock_timeouts", 0) + st["wall_timeouts"]
         for k, v in st.get("classes", {}).items():
             self.classes[k] = self.classes.get(k, 0) + v
         for s in st.get("samples", []):
